@@ -47,6 +47,7 @@ struct GenOpts {
   double utilLo = 0.05, utilHi = 1.3;
   bool globalDomain = false;  // C06 domain: rows >= 4 row-heights wide, >= 1 movable cell of positive area
   bool singleRowOnly = false;
+  bool clump = false;       // every movable cell starts on / beyond one edge of the rows (all cells compete for the same rows)
   bool twoTypes = false;    // the movable cells alternate between two library cells of different heights (C18: systematic rounding)
   bool tallMix = false;     // half of the movable cells are several rows high (mixed heights)
   bool unitRows = false;    // rows one unit high: tiny cells, total movable area comparable to the number of cells
@@ -263,7 +264,11 @@ inline Circuit genCircuit(Rng &r, const GenOpts &o, GenInfo *info = nullptr) {
       else h[i] = 0;
       pol[i] = CellRowPolarity::ANY;
     }
-    if (o.farTargets && r.chance(0.1)) {
+    if (o.clump) {
+      int mode = (int)(((uint64_t)H * 31u + (uint64_t)W * 7u + (uint64_t)n) % 4);
+      x[i] = ox + (int)r.in(0, W / unit) * unit;
+      yy[i] = mode == 0 ? topY - H : mode == 1 ? topY + 5 * H : mode == 2 ? oy : oy - 5 * H;
+    } else if (o.farTargets && r.chance(0.1)) {
       x[i] = ox + (int)r.in(-3 * (W / unit), 4 * (W / unit)) * unit;
       yy[i] = oy + (int)r.in(-10, 15) * H + (int)r.in(0, H / unit) * unit;
     } else {
